@@ -622,7 +622,9 @@ class CompositeFrame(CoordinateFrame):
 
     def coordinates(self, *args):
         coo = []
-        if len(args) == len(self.frames):
+        if len(args) == len(self.frames) and len(args) != self.naxes:
+            # one (grouped) argument per frame; with one argument per world
+            # axis each frame must be handed the axes in its ``axes_order``
             for frame, arg in zip(self.frames, args):
                 coo.append(frame.coordinates(arg))
         else:
